@@ -354,7 +354,7 @@ func init() {
 	fw.Register(&fw.Property{
 		ID:          "C12",
 		Level:       "exploration",
-		Rule:        "case = a pair of random cue lists (0..30 cues each, starts drawn from 1..50 distinct values so equal starts are frequent) and random region/style maps over 4 ids with arbitrary overlap; receiver built by NewSubtitles(), &Subtitles{} (nil maps), teletext-like, or with one map only. Oracle: Order == stable sort (pointer identity); Merge == stable-sorted A++B, union of maps with A winning, B deep-unchanged. CLI: 'astisub merge'. distinct_nontrivial = distinct (A,B) pairs compared.",
+		Rule:        "case = a pair of random cue lists (0..30 cues each, starts drawn from 1..50 distinct values so equal starts are frequent) and random region/style maps over 4 ids with arbitrary overlap; receiver built by NewSubtitles(), &Subtitles{} (nil maps), teletext-like, or with one map only. Oracle: Order == stable sort (pointer identity); Merge == stable-sorted A++B, union of maps with A winning, B deep-unchanged. CLI: 'astisub merge'. Cues refer to definitions of their own list and B is compared cue by cue through a pointer-aware snapshot; list sizes include the thresholds 12/64/256/1024; a quarter of the Order calls run on a list with a past (see C09). distinct_nontrivial = distinct (A,B) pairs compared.",
 		Assumptions: []string{"map keys equal the definitions' ids"},
 		Cases:       func(tier string) int64 { return libN(tier) + cliN(tier) },
 		Anchors:     []string{"Subtitles.Order", "Subtitles.Merge", "astisub/main.go merge"},
